@@ -405,6 +405,27 @@ inline int pres_main() {
                             with_orders(rp);
                             return;
                         }
+                        if (mode == "UU") {
+                            // two unary methods, every parameter assignment,
+                            // one definition each: slot allocation
+                            rp.nm = 2;
+                            rx::Meth& u1 = rp.meths[0];
+                            rx::Meth& u2 = rp.meths[1];
+                            u1 = rx::Meth();
+                            u2 = rx::Meth();
+                            u1.shape = sU;
+                            u2.shape = hx::shape_index("R", 1);
+                            rx::for_each_vp(n, 1, u1, [&] {
+                                u1.nd = 1;
+                                u1.def[0][0] = u1.vp[0];
+                                rx::for_each_vp(n, 1, u2, [&] {
+                                    u2.nd = 1;
+                                    u2.def[0][0] = u2.vp[0];
+                                    with_orders(rp);
+                                });
+                            });
+                            return;
+                        }
                         // one unary + one binary method, every parameter
                         // assignment, <= d definitions on the binary one
                         rp.nm = 2;
